@@ -28,7 +28,7 @@ ASSUMPTIONS = [
     "in the OUTPUT or VOLATILE role",
 ]
 
-FAMILIES = ["f_vol", "f_chain", "f_optional", "f_glob", "f_subplan"]
+FAMILIES = ["f_vol", "f_chain", "f_optional", "f_glob", "f_subplan", "f_redefine"]
 CONFIGS = {
     "clean": {"njob": 2},
     "noclean": {"njob": 2, "do_clean": False},
@@ -104,6 +104,7 @@ def user_edits(desc, world_files_hint=None):
         "f_optional": ["o1.txt", "out/o2.txt", "u.txt"],
         "f_glob": ["out/a.out"],
         "f_subplan": ["sub/out/s.txt"],
+        "f_redefine": ["r.txt"],
     }[desc["fam"]]
     base = {k: v for k, v in desc.items() if k != "act"}
     for path in outs:
